@@ -80,7 +80,7 @@ fn rvals(rng: &mut Rng, allow_empty: bool) -> Vec<Vec<u8>> {
 pub fn rand_mods(rng: &mut Rng) -> Mods {
     Mods {
         withheld: false,
-        ctrls: if rng.chance(1, 3) { Some((0..rng.below(4)).map(|i| (format!("1.2.840.{}", 100 + i).into_bytes(), rng.chance(1, 2), if rng.chance(1, 2) { Some(rng.bytes(4)) } else { None })).collect()) } else { None },
+        ctrls: if rng.chance(1, 3) { Some((0..rng.below(4)).map(|i| (format!("1.2.840.{}", 100 + i).into_bytes(), rng.chance(1, 2), match rng.below(5) { 0 | 1 => Some(rng.bytes(4)), 2 => Some(vec![]), _ => None })).collect()) } else { None },
         timeout: if rng.chance(1, 5) { Some(1000 + rng.below(5000)) } else { None },
         opts: if rng.chance(1, 3) { Some((rng.below(4) as i64, rng.chance(1, 2), *rng.pick(&[0i64, 1, 127, 128, 3600, 65536]), *rng.pick(&[0i64, 7, 255, 256, 100000]))) } else { None },
     }
@@ -115,6 +115,8 @@ pub fn gen(rng: &mut Rng, n: usize, out: &mut Vec<String>) {
         }
         out.push(format!("req {}", toks.join(" ")));
     }
+    // a control whose value is present but empty (e.g. anonymous proxied authorization) keeps its (empty) value on the wire
+    out.push("req m:322e31362e3834302e312e3131333733302e332e342e3138.1.-;312e32.0.none:none:none delete/64633d78".into());
     // modifiers pending on a handle when it is cloned: the clone's operation must not carry them, the handle's next one must
     out.push("req k:312e32.1.none:none:3.1.9.7 m:none:none:none delete/64633d78 m:none:none:none search/64633d78/2/28613d6229/~".into());
     // a timed-out operation in the middle: what it carried must not reach the next operation
